@@ -1,5 +1,5 @@
 import Model
-import Generated
+import Generated.Facts
 
 /- Facts for C19 (defaults), C20 (how the hook process is created), C01/C14 (SGR literals). -/
 namespace Facts19
